@@ -650,6 +650,74 @@ def gen_consumers(r, n):
     return L
 
 
+def gen_hills(r, n):
+    """one metadynamics hill (ML) / one OPES kernel (OK) evaluated at a value, half of them across the periodic boundary or at an
+    equivalent quaternion; each followed by the same case with value and centre replaced by equivalent ones (marked IMG)"""
+    L = []
+    for _ in range(n):
+        W = r.choice([1.0, 0.5, 2.0]); m = r.random()
+        if m < 0.55:
+            P = r.choice([360.0, 8.0, 25.0]); c = r.choice([0.0, P / 2, -P / 4])
+            sg = r.choice([0.03125, 0.0625, 0.125]) * P
+            if r.random() < 0.6:
+                xc = c + P / 2 - V.dyadic(r, 0, 0.0625, bits=8) * P; x = c - P / 2 + V.dyadic(r, 0, 0.0625, bits=8) * P
+            else:
+                xc = V.dyadic(r, -1, 1, bits=8) * P; x = xc + V.dyadic(r, -0.45, 0.45, bits=8) * P
+            x2, xc2 = x + r.randint(-2, 2) * P, xc + r.randint(-2, 2) * P
+            if r.random() < 0.6:
+                kind = "distanceZ:%r" % P
+                L.append("ML %s %s 1 %s %s %s %s" % (kind, hx(c), hx(W), hx(sg), hx(x), hx(xc)))
+                L.append("ML %s %s 1 %s %s %s %s IMG" % (kind, hx(c), hx(W), hx(sg), hx(x2), hx(xc2)))
+            else:
+                cut2 = r.choice([16.0, 36.0]); vac = math.exp(-0.5 * cut2)
+                d = x - xc; d -= math.floor(d / P + 0.5) * P
+                if abs((d / sg) ** 2 - cut2) < 0.05 * cut2:
+                    continue        # too close to the kernel cut-off: which side is taken depends on rounding
+                L.append("OK %s %s %s %s %s %s %s %s" % (hx(P), hx(c), hx(W), hx(xc), hx(sg), hx(cut2), hx(vac), hx(x)))
+                L.append("OK %s %s %s %s %s %s %s %s IMG" % (hx(P), hx(c), hx(W), hx(xc2), hx(sg), hx(cut2), hx(vac), hx(x2)))
+        elif m < 0.8:
+            q, qc = unit(r, 4), unit(r, 4); sg = r.choice([0.25, 0.5, 1.0])
+            L.append("ML orientation 0x0p+0 4 %s %s %s %s" % (hx(W), hx(sg), " ".join(map(hx, q)), " ".join(map(hx, qc))))
+            flip = r.random() < 0.5
+            L.append("ML orientation 0x0p+0 4 %s %s %s %s IMG" % (hx(W), hx(sg), " ".join(map(hx, [-a for a in q] if flip else q)), " ".join(map(hx, qc if flip else [-a for a in qc]))))
+        else:
+            a, b = unit(r, 3), unit(r, 3); sg = r.choice([0.25, 0.5, 1.0])
+            L.append("ML distanceDir 0x0p+0 3 %s %s %s %s" % (hx(W), hx(sg), " ".join(map(hx, a)), " ".join(map(hx, b))))
+    return L
+
+
+def oracle_hill(line, out, prev):
+    w = line.split(); o = parse(out)
+    img = w[-1] == "IMG"
+    if img:
+        w = w[:-1]
+    if o is None:
+        return "no numeric result (%s)" % out
+    if w[0] == "ML":
+        n = int(w[3]); W, sg = float.fromhex(w[4]), float.fromhex(w[5])
+        v = [float.fromhex(t) for t in w[6:]]; x, c = v[:n], v[n:]
+        kind = w[1]
+        cls, P = ("periodic", float(kind.split(":")[1])) if ":" in kind else (("quat", None) if n == 4 else ("unit", None))
+        sq = py_dist2(cls, P, x, c) / (sg * sg)
+        want = 0.0 if sq > 23.0 else W * math.exp(-0.5 * sq)
+        if abs(sq - 23.0) > 1e-6 and not close(o[0], want, 1e-8):
+            return "metadynamics hill (weight %r, width %r) on %s centred at %r evaluated at %r: energy %r, expected %r from the variable's distance" % (W, sg, kind, c, x, o[0], want)
+        if not all(math.isfinite(t) for t in o):
+            return "metadynamics hill on %s: energy/force %r not finite" % (kind, o)
+    else:
+        P, c, h, kc, sg, cut2, vac, x = [float.fromhex(t) for t in w[1:9]]
+        d = x - kc; d -= math.floor(d / P + 0.5) * P
+        n2 = (d / sg) ** 2
+        want = 0.0 if n2 >= cut2 else h * (math.exp(-0.5 * n2) - vac)
+        if not close(o[0], want, 1e-8) or not close(o[1], want, 1e-8):
+            return "OPES kernel (height %r, centre %r, sigma %r) on a variable of period %r evaluated at %r: %r / %r, expected %r from the closest image" % (h, kc, sg, P, x, o[0], o[1], want)
+    if img and prev is not None:
+        po = parse(prev[1])
+        if po and not close(po[0], o[0], 1e-8):
+            return "the value of a hill / kernel changes from %r to %r when value and centre are replaced by equivalent ones (%s vs %s)" % (po[0], o[0], prev[0], line)
+    return None
+
+
 def oracle_consumer(line, out, prev):
     w = line.split(); o = parse(out)
     if o is None:
@@ -945,7 +1013,7 @@ def check(run):
     run.assumptions += ["theorems are about the R instance of the model; the tie runs the float instance and compares with relative tolerance 1e-9 (acos, sqrt) and exactly for dyadic cases",
                         "the model is of the code after the fix: commits of C18 (fix-C18-3: metric of sums of components with different periodicities; fix-C18: dist2_rgrad, wrap of spinAngle/eulerPhi/eulerPsi, periodic scripted distance, q/-q interpolation NaN)",
                         "NaN is outside the real-number model: the 0/0 of interpolating q and -q at 1/2 is seen by the oracle and the float tie only"]
-    groups = gen_groups(r, 500 if quick else 20000)
+    groups = gen_groups(r, 460 if quick else 20000)
     misc = gen_misc(r, 250 if quick else 8000)
     misc += gen_obj(r, 150 if quick else 3000)
     cgroups = [CGroup(r) for _ in range(350 if quick else 15000)]
@@ -958,7 +1026,8 @@ def check(run):
         for v in (u, [-t for t in u], [math.nextafter(t, 2.0) for t in u], [math.nextafter(t, -2.0) for t in u], pool[(i * 7 + 3) % len(pool)], pool[(i * 13 + 5) % len(pool)]):
             uvpairs.append(fmt("UV", "", u, v))
     hgroups = [HGroup(r) for _ in range(180 if quick else 6000)]
-    cons = gen_consumers(r, 120 if quick else 4000)
+    cons = gen_consumers(r, 100 if quick else 4000)
+    hills = gen_hills(r, 45 if quick else 2000)
     sgroups = [SGroup(r, (pos, how)) for pos in range(3) for how in range(4)] + [SGroup(r) for _ in range(110 if quick else 5000)] + [SGroup(r, modify=True) for _ in range(50 if quick else 1500)]
     lines = []
     for g in groups + cgroups + omgroups + tgroups + sgroups + hgroups:
@@ -968,6 +1037,8 @@ def check(run):
     lines += uvpairs
     coff = len(lines)
     lines += cons
+    hloff = len(lines)
+    lines += hills
     moff = len(lines)
     lines += misc
     if os.environ.get("C18_DUMP_LINES"):
@@ -1066,6 +1137,14 @@ def check(run):
         if bad:
             run.violation("consumer:" + l.split()[0], bad, {"kind": "unit", "lines": [l] if prev is None else [prev[0], l], "impl": [impl[coff + i]]})
         prev = (l, impl[coff + i])
+    prev = None
+    for i, l in enumerate(hills):
+        run.count(l, True)
+        run.dist("hill:" + l.split()[0])
+        bad = oracle_hill(l, impl[hloff + i], prev)
+        if bad:
+            run.violation("hill:" + l.split()[0], bad, {"kind": "unit", "lines": [l] if prev is None else [prev[0], l], "impl": [impl[hloff + i]]})
+        prev = (l, impl[hloff + i])
     for g in sgroups:
         run.count(g.lines[0], g.x1 != g.x2)
         run.dist("sum:n=%d:%s" % (len(g.comps), "periodic" if g.P is not None else "plain"))
